@@ -288,24 +288,40 @@ func (cx *Ctx) vflow(key string) *VFlow {
 func (cx *Ctx) chain(r *Report, key string) *Chain {
 	if cx.chMemo == nil {
 		cx.chMemo = map[string]*Chain{}
-	}
-	if c, ok := cx.chMemo[key]; ok {
-		return c
+		cx.chErr = map[string]string{}
 	}
 	fn := cx.W.Func(key)
-	if fn == nil {
-		r.Fail("R-CHAIN", key, "", "anchor function not found: the handler was renamed or removed")
-		cx.chMemo[key] = nil
-		return nil
+	if _, ok := cx.chMemo[key]; !ok {
+		switch {
+		case fn == nil:
+			cx.chMemo[key], cx.chErr[key] = nil, "anchor function not found: the handler was renamed or removed"
+		default:
+			ch, err := cx.W.extractChain(cx.Fx, fn)
+			if err != nil {
+				cx.chMemo[key], cx.chErr[key] = nil, "validation chain not recognised: "+err.Error()
+			} else {
+				cx.chMemo[key] = ch
+			}
+		}
 	}
-	ch, err := cx.W.extractChain(cx.Fx, fn)
-	if err != nil {
-		r.Undecided("R-CHAIN", key, cx.W.FnPos(fn), "validation chain not recognised: "+err.Error())
-		cx.chMemo[key] = nil
-		return nil
+	// every report that relies on the chain records the outcome (several properties may run in one process)
+	ch := cx.chMemo[key]
+	seen := false
+	for _, o := range r.Obl {
+		if o.Rule == "R-CHAIN" && o.Key == key {
+			seen = true
+		}
 	}
-	cx.chMemo[key] = ch
-	r.Ok("R-CHAIN", key, cx.W.FnPos(fn), fmt.Sprintf("%d steps extracted; every registration executes exactly once before the single CheckFailed", len(ch.Steps)))
+	if !seen {
+		switch {
+		case fn == nil:
+			r.Fail("R-CHAIN", key, "", cx.chErr[key])
+		case ch == nil:
+			r.Undecided("R-CHAIN", key, cx.W.FnPos(fn), cx.chErr[key])
+		default:
+			r.Ok("R-CHAIN", key, cx.W.FnPos(fn), fmt.Sprintf("%d steps extracted; every registration executes exactly once before the single CheckFailed", len(ch.Steps)))
+		}
+	}
 	return ch
 }
 
@@ -430,6 +446,65 @@ func throughDelegation(fn *ssa.Function) *ssa.Function {
 		fn = g
 	}
 	return fn
+}
+
+// checkDecodesWholeMessage: the request decoder dk (followed through plain delegation) turns the complete transport
+// string into bytes with InflateAndDecode - whose base64 / DEFLATE errors cover the whole input - and parses exactly
+// those bytes with encoding/xml.Unmarshal. A streaming decoder stops at the end of the root element and never sees
+// a transport error behind it, so a message that does not decode would be treated as decoded.
+func (cx *Ctx) checkDecodesWholeMessage(r *Report, rule, dk string) {
+	w := cx.W
+	f := w.Func(dk)
+	if f == nil {
+		r.Fail(rule, dk+":whole-message", "", "anchor not found")
+		return
+	}
+	f = throughDelegation(f)
+	var inflate, unmarshal *ssa.Call
+	for _, c := range callsIn(f) {
+		call, ok := c.(*ssa.Call)
+		if !ok {
+			continue
+		}
+		if cal := calleeOf(call); cal != nil && w.FuncKey(cal) == "xml.InflateAndDecode" {
+			inflate = call
+		}
+		if calleeName(call) == "encoding/xml.Unmarshal" {
+			unmarshal = call
+		}
+	}
+	bad := ""
+	switch {
+	case inflate == nil:
+		bad = dk + " does not obtain its bytes from InflateAndDecode"
+	case unmarshal == nil:
+		bad = dk + " does not parse with encoding/xml.Unmarshal (a streaming decoder stops at the end of the root element: transport errors behind it go unnoticed)"
+	default:
+		ok := false
+		if e, isE := unmarshal.Call.Args[0].(*ssa.Extract); isE && e.Tuple == ssa.Value(inflate) && e.Index == 0 {
+			ok = true
+		}
+		for _, a := range cx.Fx.aliasesOf(unmarshal.Call.Args[0]) {
+			if e, isE := a.(*ssa.Extract); isE && e.Tuple == ssa.Value(inflate) && e.Index == 0 {
+				ok = true
+			}
+		}
+		if !ok {
+			for _, ref := range nonDebugRefs(inflate) {
+				if e, isE := ref.(*ssa.Extract); isE && e.Index == 0 {
+					for _, a := range cx.Fx.aliasesOf(e) {
+						if a == unmarshal.Call.Args[0] {
+							ok = true
+						}
+					}
+				}
+			}
+		}
+		if !ok {
+			bad = dk + " parses bytes other than the ones InflateAndDecode returned"
+		}
+	}
+	r.Check(bad == "", rule, dk+":whole-message", w.FnPos(f), "InflateAndDecode of the complete transport string, then xml.Unmarshal of exactly those bytes", bad)
 }
 
 func matchAnyCall(ms ...func(ssa.CallInstruction) bool) func(ssa.CallInstruction) bool {
